@@ -185,6 +185,35 @@ def shard(sh):
     return st.result([drv])
 
 
+def shard_unknown(sh):
+    """comments and white space between any two tokens of UNDECLARED items in a context that skips them (CFGF_IGNORE_UNKNOWN):
+    acceptance and values as without the insertion"""
+    forms, deadline = sh
+    IG = CFGF['IGNORE_UNKNOWN']
+    sid = 'F01'
+    sch = FAM[sid]
+    drv = get_driver('asan')
+    drv.define_schema(sid, sch.spec())
+    st = ShardStats('undeclared items, IGNORE_UNKNOWN')
+    bases = [b'u = 1 i = 7', b'u = { 1 , 2 } i = 7', b'u += 1 i = 7', b'u += { 1 } s = x', b'u ( 1 , 2 ) i = 7', b'u { a = 1 } i = 7', b'u t { a = { 1 } b t { } } i = 7',
+             b'i = 7 u = 1', b'u = 1 v t { } s = x', b'u { v { w = 1 } } b = true', b'u = 1 i = ='] 
+    buf = []
+    for base in bases:
+        words = base.split(b' ')
+        for p_ in range(len(words) + 1):
+            for f in forms:
+                text = with_insertions(words, ((p_, f),))
+                for flags in (IG, IG | CM):
+                    buf.append((words, text, flags))
+        if time.time() > deadline:
+            st.complete = False
+            break
+    for ch in engine.chunks(buf, BATCH):
+        run(st, drv, sid, sch, ch)
+    st.samples.append({'bases': [b.decode() for b in bases], 'forms': len(forms)})
+    return st.result([drv])
+
+
 def main():
     ck = engine.Check(PID)
     if ck.replay:
@@ -204,6 +233,8 @@ def main():
             for ch in engine.chunks(frontier, 3):
                 shards.append((sid, N, nins, ch, forms, dl))
         engine.phase(ck, 'E1 N=%d x %d insertion(s) x annotations off/on' % (N, nins), shard, shards, schemas=len(USE), forms=len(forms))
+    engine.phase(ck, 'one insertion at every token boundary of texts with undeclared items (assignment, list, append, call, plain / titled / nested section) under CFGF_IGNORE_UNKNOWN x annotations off/on',
+                 shard_unknown, [(FORMS, dl)], forms=len(FORMS))
     for N, nins in plan[:-1]:
         run_plan(N, nins)
     DEEPFORMS = [b'/* a\n b */', b'#c\n', b'/*c*/', b'\n', b'# c\r\n']
